@@ -28,3 +28,17 @@ Example C31_nonvacuous :
   lev_check [5; 6; 7; 8]%N [5; 7; 9; 8; 8]%N 2 [Keep; Delete; Keep; Replace; Keep; Insert] = false /\
   lev_check [5; 6; 7; 8]%N [5; 7; 9; 8]%N 2 [Keep; Delete; Keep; Insert; Keep] = true.
 Proof. split; vm_compute; reflexivity. Qed.
+
+(** The faithful model of [Recovery::levenshtein_distance] (matrix fill with the Delete >
+    Insert > Replace tie-break, back-tracking) — Runtime/LevFaithful.v — always produces an
+    answer that passes the checker, hence is a correct minimal script, for ALL inputs. *)
+From Parol Require Import Runtime.LevFaithful.
+
+Theorem C31_model_passes_check : forall act exp,
+  let '(d, ops) := lev act exp in lev_check act exp d ops = true.
+Proof. exact lev_passes_check. Qed.
+
+Theorem C31_model_correct : forall act exp d ops, lev act exp = (d, ops) ->
+  apply_ops ops [] act exp = Some exp /\ cost ops = d /\
+  (forall ops', script_ok ops' act exp = true -> d <= cost ops').
+Proof. exact lev_correct. Qed.
